@@ -271,10 +271,13 @@ func c08Specs(tier string) []*h.SeqSpec {
 		// PUT variants
 		for _, sl := range slots[:2] {
 			for _, last := range []string{"", "z"} {
-				for _, dk := range []string{"right", "wrong", "malformed"} {
+				for _, dk := range []string{"right", "wrong", "malformed", "right-sha512"} {
 					sl, last, dk := sl, last, dk
 					if tier != "thorough" && sl == "s2" && dk == "malformed" {
 						continue
+					}
+					if tier != "thorough" && sl == "s1" && dk == "right-sha512" {
+						continue // the plain algorithm switch is C01's; s2 is the session that was created for a declared sha256 digest
 					}
 					ops = append(ops, h.Op{Name: fmt.Sprintf("PUT %s last=%q digest=%s", sl, last, dk), Do: func(w *h.World) []h.Violation {
 						m := sessM(w)
@@ -289,6 +292,8 @@ func c08Specs(tier string) []*h.SeqSpec {
 							d = dg("sha256", append(append([]byte{}, all...), '!'))
 						case "malformed":
 							d = "sha256:nothex"
+						case "right-sha512":
+							d = dg("sha512", all)
 						}
 						r := w.Do(h.Req{Method: "PUT", Path: s.Path, Query: "state=" + stateToken(len(s.Bytes)) + "&digest=" + url.QueryEscape(d), Body: []byte(last),
 							Header: map[string]string{"Content-Type": "application/octet-stream"}})
@@ -300,7 +305,7 @@ func c08Specs(tier string) []*h.SeqSpec {
 							return vs
 						}
 						switch dk {
-						case "right":
+						case "right", "right-sha512":
 							if s.Expect != "" && s.Expect != d {
 								// created for another digest: completing it with other content may be refused; it must not be a 5xx and the session must end
 								if r.Status >= 500 {
